@@ -43,12 +43,12 @@ def subLine (L : Layout) (c : Cells) (g : Sub) : String :=
     let a := axNum ax
     (innerIdx c ax).map (fun p => s!"I{a}:{p.1}:{p.2}") ++
     (match ngbUp L ax g with
-      | some n => (outerIdx c ax).map (fun p => s!"O{a}:{subIndex L n}:{p.1}:{p.2}")
+      | some n => (outerIdx c ax).map (fun p => s!"O{a}:{HydroSweeps.subIndex L n}:{p.1}:{p.2}")
       | none => (ghostIdx c ax true).map (fun i => s!"B{a}:+:{i}")) ++
     (match ngbDown L ax g with
       | some _ => []
       | none => (ghostIdx c ax false).map (fun i => s!"B{a}:-:{i}"))
-  s!"{subIndex L g} " ++ join parts
+  s!"{HydroSweeps.subIndex L g} " ++ join parts
 
 def faceLine (L : Layout) (c : Cells) (faces : Axis → List Face) (ghosts : Axis → Bool → List Loc) :
     String :=
